@@ -5,7 +5,7 @@ CONSTANTS MCDeep, MCLong
 VARIABLES sh, M, Mi, obj, tf, dg, pn, pc, hist, viol, aux
 MCShapes == AllSessionShapes
 MCScript == IF MCLong THEN <<"SetObj", "NewEmpty", "CopyTo", "FreshObj", "CopyFrom">> ELSE <<"SetObj", "NewEmpty", "CopyTo", "FreshObj", "CopyFrom">>
-MCProps == {"C03", "C04", "C07", "C20"}
+MCProps == {"C02", "C03", "C04", "C07", "C20"}
 ASSUME PrintT("SHAPES " \o ToJson(MCShapes))
 INSTANCE Session WITH Shapes <- MCShapes, Script <- MCScript, Deep <- MCDeep, Props <- MCProps, ObjMode <- "all", RawMode <- "plans"
 ====
